@@ -70,3 +70,9 @@ Print Assumptions C08_dry_run_touches_no_state_file.
 Theorem C08_all_state_sites_found : List.length all_guards = expected_sites.
 Proof. exact all_sites_found. Qed.
 Print Assumptions C08_all_state_sites_found.
+
+(* non-vacuity: without --dry-run every one of the guards can hold (they are not constantly false), with it none does *)
+Example C08_state_guards_not_vacuous :
+  forallb (fun g => snd g (sflags_all true false false)) all_guards = true /\
+  existsb (fun g => snd g (sflags_all true true false)) all_guards = false.
+Proof. vm_compute. split; reflexivity. Qed.
